@@ -444,6 +444,17 @@ pub fn quantity_parts(v: &Value) -> Option<(f64, Vec<(String, String, i128, i128
     }
 }
 
+/// The implementation's own base-unit representation of a quantity: (value, factors over base units)
+pub fn to_base_parts(v: &Value) -> Option<(f64, Factors)> {
+    match v {
+        Value::Quantity(q) => {
+            let b = q.to_base_unit_representation();
+            Some((b.unsafe_value().to_f64(), unit_factors_of!(b)))
+        }
+        _ => None,
+    }
+}
+
 /// Display string of the unit of a quantity value
 pub fn unit_text(v: &Value) -> Option<String> {
     match v {
